@@ -360,6 +360,10 @@ pub async fn explore(cfg: &SrvConfig, plan: &Plan, baseline_threads: usize) -> O
             (None, None) => 0,
         };
         obs.choices.push(choice);
+        let scheduled_this_step = matches!(enabled[choice], Act::Schedule(_)).then(|| match enabled[choice] {
+            Act::Schedule(p) => p,
+            _ => usize::MAX,
+        });
         match enabled[choice] {
             Act::Schedule(p) => {
                 ctl.event(LogEv::Action(format!("schedule {p}")));
@@ -411,9 +415,27 @@ pub async fn explore(cfg: &SrvConfig, plan: &Plan, baseline_threads: usize) -> O
         // immediate triggers
         if let Some((When::AfterAction(k), target)) = &plan.cancel {
             if !cancel_done && *k == step {
-                obs.target_scheduled_before = sched_issued[*target];
+                // the cancel command overtakes a schedule call that was issued by this very action
+                obs.target_scheduled_before = sched_issued[*target] && scheduled_this_step != Some(*target);
                 ctl.event(LogEv::Action(format!("cancel ->{target} immediately after action {step}")));
-                cancel_task = Some(do_cancel(*target, &world));
+                // truly immediate: the cancel command is put into the party's queue before any task
+                // woken by the action has run (first poll of the call here, the rest in a task)
+                let h = world.handles[*target].clone();
+                let ctl2 = world.ctl.clone();
+                let t = *target;
+                let mut fut = Box::pin(async move { h.cancel().await.map_err(|e| format!("{e:?}")) });
+                match futures_util::poll!(fut.as_mut()) {
+                    std::task::Poll::Ready(r) => {
+                        ctl2.event(LogEv::CancelDone { party: t, result: r });
+                        cancel_task = Some(tokio::spawn(async {}));
+                    }
+                    std::task::Poll::Pending => {
+                        cancel_task = Some(tokio::spawn(async move {
+                            let r = fut.await;
+                            ctl2.event(LogEv::CancelDone { party: t, result: r });
+                        }));
+                    }
+                }
                 cancel_done = true;
                 obs.trigger_fired = true;
             }
